@@ -9,6 +9,7 @@ import (
 	"net/http"
 	"os"
 	"sync"
+	"sync/atomic"
 	"time"
 )
 
@@ -129,7 +130,13 @@ type PipeConn struct {
 	timer    *time.Timer
 	// MaxRead bounds the size of a single Read (0 = unbounded); set before use.
 	MaxRead func() int
+	// NonBlocking makes Read fail with ErrWouldBlock instead of waiting when no data
+	// is buffered (for strictly sequential scenarios, where waiting can never help).
+	NonBlocking atomic.Bool
 }
+
+// ErrWouldBlock is returned by a NonBlocking PipeConn when no data is buffered.
+var ErrWouldBlock = errors.New("wsmodel: no data buffered (peer wrote nothing more)")
 
 // Pipe returns two connected ends (a is conventionally the client).
 func Pipe() (a, b *PipeConn) {
@@ -163,6 +170,9 @@ func (c *PipeConn) Read(p []byte) (int, error) {
 		}
 		if h.wclose {
 			return 0, io.EOF
+		}
+		if c.NonBlocking.Load() {
+			return 0, ErrWouldBlock
 		}
 		c.dmu.Lock()
 		dl := c.deadline
